@@ -9,6 +9,13 @@ Sub-checks
                candidate rollout is observed through a delegating get_reward spy (one around the env handed to
                the evaluator, one injected into the policy in place of the default env it would build itself);
                objectives are recomputed in float64 on the ORIGINAL instances.
+               Environments: tsp, cvrp (reward = pure function of instance and actions) and mtsp, whose default
+               cost_type="minmax" reads the reward from the ROLLOUT STATE kept in the td (max sub-tour length
+               accumulated by _step), so that a reward taken from another rollout's state is visible.
+  select_best: direct policy calls policy(td, env, decode_type=sampling|multistart_sampling|multistart_greedy,
+               num_samples/num_starts=k, select_best=True): the returned reward is the objective of the returned
+               actions and the maximum over that instance's k rollouts (spy + a second call with
+               select_best=False under the same torch seed).
   pomo_step  : POMO.shared_step(val/test) -- the (n_aug, n_start) regrouping that reports max_reward /
                max_aug_reward, against the same spy + oracle.
 """
@@ -19,7 +26,7 @@ import math
 import hypothesis.strategies as st
 import torch
 
-from ..oracles.routing import judge_cvrp, judge_tsp
+from ..oracles.routing import judge_cvrp, judge_mtsp, judge_tsp
 from ..runner import Sub
 
 PROPERTY = "C15"
@@ -28,12 +35,17 @@ RULE = (
     "first_aug_identity, td layout default{locs} | extras{locs incl. depot node, demand, capacity, int key; "
     "feats=['locs']} | multi{locs, depot[B,1,2]; feats=['locs','depot']}, lattice k/16 or float32 coordinates, a "
     "permutation + depot-return pattern, torch seed; api StateAugmentation or the bare functions). Non-trivial = "
-    "B >= 2 and num_augment >= 2. evaluation: case = (tsp|cvrp, n 4-8, dataset size 1-13, loader batch size, "
-    "method greedy|sampling|multistart_greedy|augment|augment_dihedral_8|multistart_greedy_augment(_dihedral_8), "
+    "B >= 2 and num_augment >= 2. evaluation: case = (tsp|cvrp|mtsp{cost_type minmax|sum, agent range}, n 4-8, "
+    "dataset size 1-13, loader batch size, "
+    "method greedy|sampling|multistart_greedy|augment|augment_dihedral_8|multistart_greedy_augment(_dihedral_8) "
+    "(mtsp/minmax: sampling only, see assumptions), "
     "num_starts/num_augment/samples/temperature/top_k drawn, evaluate_policy or Eval class + DataLoader, "
     "env.dataset | TensorDictDataset | TensorDictDatasetFastGeneration, AM policy embed 16/32, 1 layer, seeded "
     "spread init). Non-trivial = >= 2 loader batches with a partial last batch and some instance with >= 2 "
-    "candidates whose objectives differ. pomo_step: POMO val/test step with num_augment 2-8, num_starts 2-n; "
+    "candidates whose objectives differ. select_best: case = (tsp|cvrp|mtsp{minmax|sum}, n 4-8, B 1-6, mode "
+    "samples(num_samples=k)|ms_sampling|ms_greedy(num_starts=k), k 1-6, temperature/top_k drawn, select_best=True, "
+    "env passed explicitly); non-trivial = B >= 2, k >= 2 and for some instance a rollout other than its copy 0 is "
+    "strictly best. pomo_step: POMO val/test step with num_augment 2-8, num_starts 2-n; "
     "non-trivial = B >= 2 and candidates differ. Distinct = distinct case hash."
 )
 ASSUMPTIONS = [
@@ -46,6 +58,18 @@ ASSUMPTIONS = [
     "env.get_reward values are cross-checked against the independent float64 oracle (1e-4 on augmented "
     "coordinates, 1e-5*(1+length) on original coordinates); exact ties between candidates are don't-care",
     "num_starts <= num_loc (start-node selection for larger values is C12 / finding F8)",
+    "mtsp with cost_type='minmax' keeps its reward in the rollout state (td['reward'] = -max_subtour_length written "
+    "by _step); GreedyEval, AugmentationEval, GreedyMultiStartEval and GreedyMultiStartAugmentEval recompute "
+    "env.get_reward(reset td, actions) on the RESET state, which has no such key (KeyError on the unchanged tree): "
+    "these methods are not defined for state-reward environments and are not drawn for mtsp/minmax; only "
+    "method='sampling' (samples >= 1), which reports the policy's own out['reward'], is. mtsp/sum (reward = pure "
+    "function of locs and actions) is drawn with every method",
+    "every evaluation method is asserted in the objective of the EVALUATOR's environment (for mtsp its cost_type); "
+    "before the repair F47 the evaluators called the policy without env, so the policy decoded with a default env "
+    "rebuilt from its env name and method='sampling' reported that env's (minmax) reward for a cost_type='sum' env",
+    "mtsp actions are judged after stripping the trailing depot padding; num_starts <= num_loc - 1 customers; "
+    "flp/mcp/ffsp/fjsp/mpdp (other state-reward envs) have no AttentionModelPolicy embeddings or are expensive and "
+    "are left to C03/C12",
 ]
 TIME_CAP = {"quick": 300, "thorough": 2400}
 
@@ -328,15 +352,39 @@ METHODS = ["greedy", "sampling", "multistart_greedy", "augment", "augment_dihedr
            "multistart_greedy_augment", "multistart_greedy_augment_dihedral_8"]
 
 
+# methods that are defined for an environment whose reward lives in the rollout state (see ASSUMPTIONS)
+STATE_REWARD_METHODS = ["sampling"]
+EVAL_ENVS = ["tsp", "cvrp", "tsp", "cvrp", "tsp", "cvrp", "mtsp", "mtsp"]
+
+
+def _draw_env(draw, envs):
+    env = draw(st.sampled_from(envs))
+    n = draw(st.integers(4, 8))
+    c = dict(env=env, n=n)
+    if env == "mtsp":  # node 0 is the depot, n - 1 customers, num_agents drawn per instance from [lo, hi]
+        c["ct"] = draw(st.sampled_from(["minmax", "minmax", "sum"]))
+        lo = draw(st.integers(1, 3))
+        c["agents"] = [lo, draw(st.integers(lo, min(n - 1, lo + 2)))]
+    return c
+
+
+def _state_reward(case):
+    return case["env"] == "mtsp" and case["ct"] == "minmax"
+
+
+def _max_starts(case):
+    return case["n"] - 1 if case["env"] == "mtsp" else case["n"]
+
+
 @st.composite
 def eval_cases(draw, tier="quick"):
-    env = draw(st.sampled_from(["tsp", "cvrp"]))
-    n = draw(st.integers(4, 8))
+    c = _draw_env(draw, EVAL_ENVS)
+    env, n = c["env"], c["n"]
     N = draw(st.integers(1, 13))
     bs = draw(st.one_of(st.integers(1, N + 1), st.sampled_from([2, 3, 4, 5])))
-    method = draw(st.sampled_from(METHODS))
+    method = draw(st.sampled_from(STATE_REWARD_METHODS if _state_reward(c) else METHODS))
     E = draw(st.sampled_from([16, 32]))
-    c = dict(env=env, n=n, N=N, bs=bs, method=method,
+    c.update(N=N, bs=bs, method=method,
              api=draw(st.sampled_from(["evaluate_policy", "class"])),
              data=draw(st.sampled_from(["env.dataset", "tdd", "fastgen"])),
              E=E, H=draw(st.sampled_from([1, 2] if E == 16 else [2, 4])),
@@ -345,9 +393,10 @@ def eval_cases(draw, tier="quick"):
     if "augment" in method:
         c["na"] = 8 if "dihedral" in method else draw(st.one_of(st.integers(2, 6), st.integers(1, 6)))
     if "multistart" in method:
-        c["ns"] = draw(st.one_of(st.none(), st.integers(2, n), st.integers(1, n)))
+        ms = _max_starts(c)
+        c["ns"] = draw(st.one_of(st.none(), st.integers(2, ms), st.integers(1, ms)))
     if method == "sampling":
-        c["samples"] = draw(st.integers(1, 6))
+        c["samples"] = draw(st.one_of(st.integers(1, 6), st.integers(2, 6))) if env == "mtsp" else draw(st.integers(1, 6))
         c["temperature"] = draw(st.sampled_from([1.0, 1.0, 2.0]))
         c["top_k"] = draw(st.sampled_from([0, 0, 3]))
     return c
@@ -398,12 +447,24 @@ def _default_env(name):
     return _ENVS["default", name]
 
 
-def _sized_env(name, n):
+def _sized_env(name, n, case=None):
     from rl4co.envs import get_env
 
+    if name == "mtsp":
+        lo, hi = case["agents"]
+        key = (name, n, case["ct"], lo, hi)
+        if key not in _ENVS:
+            _ENVS[key] = get_env(name, generator_params=dict(num_loc=n, min_num_agents=lo, max_num_agents=hi),
+                                 cost_type=case["ct"])
+        return _ENVS[key]
     if (name, n) not in _ENVS:
         _ENVS[name, n] = get_env(name, generator_params=dict(num_loc=n))
     return _ENVS[name, n]
+
+
+def _policy_ct(name):
+    """Objective of the environment the policy builds from its env_name when it is called without env."""
+    return _default_env(name).cost_type if name == "mtsp" else None
 
 
 def make_policy(case):
@@ -425,15 +486,19 @@ def _instances(name, td):
     for i in range(td.batch_size[0]):
         if name == "tsp":
             out.append({"locs": td["locs"][i].double().tolist()})
+        elif name == "mtsp":
+            out.append({"locs": td["locs"][i].double().tolist(), "num_agents": int(td["num_agents"][i])})
         else:
             out.append({"locs": td["locs"][i].double().tolist(), "depot": td["depot"][i].double().tolist(),
                         "demand": td["demand"][i].double().tolist()})
     return out
 
 
-def _judge(name, inst, acts):
+def _judge(name, inst, acts, ct=None):
     if name == "tsp":
         return judge_tsp(inst, list(acts))
+    if name == "mtsp":
+        return judge_mtsp(inst, _strip(acts), {"cost_type": ct})
     return judge_cvrp(inst, _strip(acts))
 
 
@@ -471,14 +536,20 @@ def _groups(log):
     return groups
 
 
-def _candidates(ctx, name, groups, insts, sizes, sl):
+def _candidates(ctx, name, groups, insts, sizes, sl, ct_of=None, ct=None):
     """Per instance: list of (objective on the original instance, action key, tag).  Row r of a call with R = k*B
-    rows belongs to instance r mod B of the loader batch; this is *verified* through the recorded reward."""
+    rows belongs to instance r mod B of the loader batch; this is *verified* through the recorded reward.
+    mtsp: ct_of[tag] is the cost type of the environment behind that spy (for the verification of its recorded
+    rewards), ct the cost type in which the evaluation reports (for the candidates' objectives)."""
     cands = [[] for _ in insts]
     off = 0
     for g, Bj in zip(groups, sizes):
+        multi = False
         for _, tag, R, acts, rew in g["calls"]:
             rew = rew.reshape(-1)
+            # a Bj-row call after a k*Bj-row call is the reward of the rollouts that select_best kept
+            what = "selected_rollout_reward" if (multi and R == Bj) else "candidate_row_mapping"
+            multi = multi or R > Bj
             if not ctx.check(R % Bj == 0 and acts.shape[0] == R and rew.shape[0] == R, f"candidate_layout|{sl}",
                              f"get_reward call with {R} rows / rewards {tuple(rew.shape)} for a loader batch of {Bj}"):
                 continue
@@ -486,12 +557,14 @@ def _candidates(ctx, name, groups, insts, sizes, sl):
             rw = rew.double().tolist()
             for r in range(R):
                 i = off + r % Bj
-                v = _judge(name, insts[i], A[r])
+                v = _judge(name, insts[i], A[r], ct_of[tag] if ct_of else None)
                 if not _close(rw[r], v.obj, v.terms, 1e-4):
-                    ctx.violation(f"candidate_row_mapping|{sl}|{tag}",
+                    ctx.violation(f"{what}|{sl}|{tag}",
                                   f"row {r} of a {R}-row get_reward call (loader batch of {Bj}) has reward {rw[r]} but "
                                   f"its actions cost {v.obj} on original instance {i} (= offset {off} + r mod B)",
                                   {"actions": A[r], "instance": insts[i], "tag": tag})
+                if ct_of and ct_of[tag] != ct:
+                    v = _judge(name, insts[i], A[r], ct)
                 cands[i].append((v.obj, _key(name, A[r]), tag))
         off += Bj
     return cands
@@ -544,12 +617,21 @@ def _run_eval(case, ctx, env_spy, pol_spy, ds):
 
 def exec_eval(case, ctx):
     name, n, N, bs, method = (case[k] for k in ("env", "n", "N", "bs", "method"))
-    sl = method
-    env = _sized_env(name, n)
+    sl = method if name != "mtsp" else f"{method}|mtsp|{case['ct']}"
+    env = _sized_env(name, n, case)
     ds, td0 = _dataset(case, env)
     insts = _instances(name, td0)
     policy = make_policy(case)
     log = []
+    # mtsp: cost type of the env behind each spy, and the one the method reports in (sampling returns the
+    # policy's own out["reward"]; every other method recomputes the reward with the evaluator's env)
+    ct_of = ct = None
+    if name == "mtsp":
+        ct_of = {"eval": case["ct"], "policy": _policy_ct(name)}
+        # every method must report in the objective of the evaluator's env (F47: sampling used to return the reward of
+        # a default env that the policy rebuilt from its env name, i.e. the minmax objective for a cost_type="sum" env)
+        ct = ct_of["eval"]
+        ctx.event(f"mtsp|cost_type={case['ct']}|{method}")
     out = _run_eval(case, ctx, SpyEnv(env, log, "eval"), SpyPolicy(policy, log), ds)
 
     sizes = [min(bs, N - s) for s in range(0, N, bs)]
@@ -567,15 +649,15 @@ def exec_eval(case, ctx):
     if not ctx.check([g["B"] for g in groups] == sizes, f"eval_batches|{sl}",
                      f"evaluator reset batches {[g['B'] for g in groups]}, expected {sizes}"):
         return
-    cands = _candidates(ctx, name, groups, insts, sizes, sl)
+    cands = _candidates(ctx, name, groups, insts, sizes, sl, ct_of, ct)
     greedy = _greedy_reference(case, policy, env, td0, sizes)
 
     R = rewards.double().tolist()
     A = actions.tolist()
-    differ = False
+    differ = first_not_best = False
     for i in range(N):
         # (1) reported reward is the objective of the returned actions on original instance i
-        v = _judge(name, insts[i], A[i])
+        v = _judge(name, insts[i], A[i], ct)
         bad = v.bad(1e-4)
         ctx.check(not bad, f"returned_actions_infeasible|{sl}",
                   f"instance {i}: returned actions {A[i]} are not a solution of it: {bad}", {"instance": insts[i]})
@@ -597,9 +679,11 @@ def exec_eval(case, ctx):
                   f"instance {i}: returned actions {A[i]} were never rolled out for it")
         if max(objs) - min(objs) > 1e-6:
             differ = True
+        if best - objs[0] > 1e-6:
+            first_not_best = True
         # (3) never worse than single greedy decoding when that rollout is among the candidates
         gk = _key(name, greedy[i])
-        gv = _judge(name, insts[i], greedy[i])
+        gv = _judge(name, insts[i], greedy[i], ct)
         if gk in {c[1] for c in cands[i]}:
             ctx.event(f"greedy_among_candidates|{method}")
             if not R[i] >= gv.obj - 1e-5 * (1 + gv.terms):
@@ -609,6 +693,8 @@ def exec_eval(case, ctx):
             ctx.event(f"greedy_not_among_candidates|{method}")
     if differ:
         ctx.event("candidates_differ")
+    if first_not_best:  # the best rollout of some instance is not the first one recorded for it (copy/sample 0)
+        ctx.event("best_is_not_first_candidate" + ("|mtsp|" + case["ct"] if name == "mtsp" else ""))
     if batching == "partial_last_batch" and differ:
         ctx.nontriv()
     ctx.sample({k: v for k, v in case.items() if k not in ("pseed", "dseed", "tseed")})
@@ -624,8 +710,131 @@ def _min_eval(case):
             c = {**case, key: val}
             if key == "E":
                 c["H"] = 2
+            if key == "env":  # (mtsp -> tsp: drop the mtsp-only keys)
+                if _state_reward(case):
+                    continue
+                c.pop("ct", None), c.pop("agents", None)
+            if c.get("agents"):
+                c["agents"] = [min(c["agents"][0], c["n"] - 1), min(c["agents"][1], c["n"] - 1)]
             if c.get("ns") is not None:
-                c["ns"] = min(c["ns"], c["n"])
+                c["ns"] = min(c["ns"], _max_starts(c))
+            yield c
+
+
+# =========================================================================== B2. select_best in a direct policy call
+SEL_ENVS = ["mtsp", "mtsp", "mtsp", "tsp", "cvrp"]
+SEL_MODES = ["samples", "samples", "ms_sampling", "ms_greedy"]
+
+
+@st.composite
+def sel_cases(draw, tier="quick"):
+    c = _draw_env(draw, SEL_ENVS)
+    E = draw(st.sampled_from([16, 32]))
+    mode = draw(st.sampled_from(SEL_MODES))
+    kmax = 6 if mode == "samples" else min(6, _max_starts(c))
+    c.update(B=draw(st.integers(1, 6)), mode=mode, k=draw(st.one_of(st.integers(2, kmax), st.integers(1, kmax))),
+             E=E, H=draw(st.sampled_from([1, 2] if E == 16 else [2, 4])),
+             spread=draw(st.sampled_from([1.0, 1.25, 1.5])),
+             temperature=draw(st.sampled_from([1.0, 1.0, 2.0])), top_k=draw(st.sampled_from([0, 0, 3])),
+             pseed=draw(SEED), dseed=draw(SEED), tseed=draw(SEED))
+    return c
+
+
+def _sel_call(case, policy, env, td, select_best):
+    kw = dict(temperature=case["temperature"], top_k=case["top_k"], select_best=select_best)
+    if case["mode"] == "samples":
+        kw.update(decode_type="sampling", num_samples=case["k"])
+    else:
+        kw.update(decode_type="multistart_sampling" if case["mode"] == "ms_sampling" else "multistart_greedy",
+                  num_starts=case["k"])
+    torch.manual_seed(case["tseed"])
+    with torch.inference_mode():
+        return policy(td.clone(), env, **kw)
+
+
+def exec_sel(case, ctx):
+    """policy(td, env, ..., select_best=True): docstring of the decoding strategies -- 'select_best: whether to
+    select the best action or return all'.  Per instance the k rollouts are reduced to the best one; reward,
+    actions (and the final state the reward is read from) must all belong to that rollout."""
+    name, n, B, k, mode = (case[x] for x in ("env", "n", "B", "k", "mode"))
+    ct = case.get("ct")
+    sl = f"{mode}|{name}" + (f"|{ct}" if ct else "")
+    env = _sized_env(name, n, case)
+    policy = make_policy(case)
+    torch.manual_seed(case["dseed"])
+    td0 = env.generator(B)
+    insts = _instances(name, td0)
+    td = env.reset(td0.clone())
+    log = []
+    spy = SpyEnv(env, log, "policy")
+    out = ctx.guard(_sel_call, case, policy, spy, td, True, what=f"policy|select_best|{sl}")
+    ctx.event(f"{sl}|k={'1' if k == 1 else 'k'}")
+    rewards, actions = out["reward"], out["actions"]
+    if not ctx.check(rewards.dim() == 1 and rewards.shape[0] == B and actions.dim() == 2 and actions.shape[0] == B,
+                     f"select_best_shape|{sl}", f"reward {tuple(rewards.shape)}, actions {tuple(actions.shape)} for "
+                     f"B={B}, k={k} with select_best=True"):
+        return
+    calls = [r for r in log if r[0] == "reward"]
+    ct_of = {"policy": ct, "all": ct} if name == "mtsp" else None
+    # (a) every rollout as the selection saw it (get_reward spy; row r <-> instance r mod B verified)
+    cands = _candidates(ctx, name, [{"B": B, "calls": calls}], insts, [B], f"select_best|{sl}", ct_of, ct)
+    # (b) the same rollouts once more: same torch seed, select_best=False returns all k*B of them
+    allout = ctx.guard(_sel_call, case, policy, env, td, False, what=f"policy|select_all|{sl}")
+    keff = k if k > 1 else 1
+    Rall, Aall = allout["reward"].reshape(-1), allout["actions"]
+    if not ctx.check(Rall.shape[0] == keff * B and Aall.shape[0] == keff * B, f"select_all_shape|{sl}",
+                     f"select_best=False returned {tuple(Rall.shape)} rewards / {tuple(Aall.shape)} actions for "
+                     f"B={B}, k={k}"):
+        return
+    rec = ("reward", "all", keff * B, Aall, Rall)
+    cands2 = _candidates(ctx, name, [{"B": B, "calls": [rec]}], insts, [B], f"select_all|{sl}", ct_of, ct)
+
+    R = rewards.double().tolist()
+    A = actions.tolist()
+    first_not_best = False
+    for i in range(B):
+        v = _judge(name, insts[i], A[i], ct)
+        bad = v.bad(1e-4)
+        ctx.check(not bad, f"returned_actions_infeasible|select_best|{sl}",
+                  f"instance {i}: returned actions {A[i]} are not a solution of it: {bad}", {"instance": insts[i]})
+        if not _close(R[i], v.obj, v.terms):
+            ctx.violation(f"reward_not_objective_of_returned_actions|select_best|{sl}",
+                          f"instance {i} of B={B}, k={k}: returned reward {R[i]} but the returned actions {A[i]} "
+                          f"cost {v.obj} on it", {"instance": insts[i]})
+        for which, cs in (("spy", cands[i]), ("select_all", cands2[i])):
+            objs = [c[0] for c in cs]
+            if not ctx.check(len(objs) >= keff, f"no_candidates|select_best|{sl}",
+                             f"instance {i}: {len(objs)} candidate rollouts observed ({which}), k={k}"):
+                continue
+            best = max(objs)
+            if not _close(R[i], best, v.terms):
+                side = "below" if R[i] < best else "above"
+                ctx.violation(f"not_best_of_candidates|select_best|{sl}|{side}",
+                              f"instance {i}: returned reward {R[i]} vs maximum {best} over its {len(objs)} "
+                              f"rollouts ({which}; objectives {sorted(set(round(o, 6) for o in objs))})")
+            ctx.check(_key(name, A[i]) in {c[1] for c in cs}, f"returned_actions_not_a_candidate|select_best|{sl}",
+                      f"instance {i}: returned actions {A[i]} are none of its rollouts ({which})")
+        # copy 0 of instance i is row i of the k*B-row batch
+        o2 = [c[0] for c in cands2[i]]
+        if o2 and max(o2) - o2[0] > 1e-6:
+            first_not_best = True
+    ctx.event("best_is_not_copy_0" if first_not_best else "best_is_copy_0_everywhere")
+    if B >= 2 and k >= 2 and first_not_best:
+        ctx.nontriv()
+    ctx.sample({x: y for x, y in case.items() if x not in ("pseed", "dseed", "tseed")})
+
+
+def _min_sel(case):
+    for key, val in (("B", 1), ("B", 2), ("k", 2), ("n", 4), ("E", 16), ("spread", 1.0), ("temperature", 1.0),
+                     ("top_k", 0), ("mode", "samples")):
+        if case[key] != val:
+            c = {**case, key: val}
+            if key == "E":
+                c["H"] = 2
+            if c.get("agents"):
+                c["agents"] = [min(c["agents"][0], c["n"] - 1), min(c["agents"][1], c["n"] - 1)]
+            if c["mode"] != "samples":
+                c["k"] = min(c["k"], _max_starts(c))
             yield c
 
 
@@ -736,7 +945,7 @@ def preimport():
     from rl4co.models.zoo import POMO, SymNCO  # noqa
     from rl4co.tasks import eval as _e  # noqa
 
-    for name in ("tsp", "cvrp"):
+    for name in ("tsp", "cvrp", "mtsp"):
         _default_env(name)
 
 
@@ -744,7 +953,9 @@ SUBS = [
     Sub("transforms", exec_aug, strategy=lambda tier: aug_cases(tier),
         budget={"quick": 15008, "thorough": 100000}, shards=16),
     Sub("evaluation", exec_eval, strategy=lambda tier: eval_cases(tier),
-        budget={"quick": 480, "thorough": 3000}, shards=16, shrink=False, minimize=_min_eval, weight=3.0),
+        budget={"quick": 592, "thorough": 3600}, shards=16, shrink=False, minimize=_min_eval, weight=3.0),
+    Sub("select_best", exec_sel, strategy=lambda tier: sel_cases(tier),
+        budget={"quick": 320, "thorough": 2400}, shards=8, shrink=False, minimize=_min_sel, weight=1.5),
     Sub("pomo_step", exec_pomo, strategy=lambda tier: pomo_cases(tier),
         budget={"quick": 192, "thorough": 1200}, shards=8, shrink=False, minimize=_min_pomo, weight=2.0),
 ]
